@@ -414,6 +414,25 @@ def lattice_c05(ctx):
         why = _judge(vals, true_min, 'min %s (even exponents only)' % name, groups, [[(f_, 'p=0'), (f_, 'p=1')] for f_ in ('primal', 'dual')])
         if why:
             return why, nsolves
+    # the dual encodings (compact / epigraph) over a domain that is ACTIVE, both entry points: the domain rows are part of every encoding
+    import sageopt.coniclifts as cl_
+    pz = x2[0] ** 4 + x2[1] ** 4 - 3 * x2[0] ** 2 - 2 * x2[1] ** 2 + x2[0] * x2[1] + x2[0]
+    Xz = sp.infer_domain(pz, [0.25 - x2[0] ** 2, 0.25 - x2[1] ** 2], [])
+    ubz = min(float(pz(np.array([a, b]))) for a in np.linspace(-0.5, 0.5, 41) for b in np.linspace(-0.5, 0.5, 41))
+    vals = {}
+    with _settings_guard() as Gz:
+        for comp in (True, False):
+            Gz.reset()
+            cl_.compact_sage_duals(comp)
+            vals[('dual', 'poly_relaxation', 'compact_dual=%s' % comp)] = _solve(lambda: sp.poly_relaxation(pz, X=Xz, form='dual'))
+            vals[('dual', 'poly_constrained_relaxation', 'compact_dual=%s' % comp)] = _solve(lambda: sp.poly_constrained_relaxation(pz, [], [], Xz, form='dual'))
+            nsolves += 2
+        Gz.reset()
+        vals[('primal', 'poly_relaxation')] = _solve(lambda: sp.poly_relaxation(pz, X=Xz, form='primal'))
+        nsolves += 1
+    why = _judge(vals, ubz, 'min x0^4 + x1^4 - 3x0^2 - 2x1^2 + x0x1 + x0 over |x_i| <= 1/2 (the domain is active), dual encodings', [list(vals)], [])
+    if why:
+        return why, nsolves
     # constrained, both reflections (the minimiser lies in different orthants)
     for sg in (1.0, -1.0):
         for name, p, gts, pts, levels in (
